@@ -10,7 +10,10 @@ BucketOK(b) == LET s == SortedSeq({b.hashes[i] : i \in 1..Len(b.hashes)}) IN
                /\ b.hashes = Eytzinger(s)
 LayoutOK(r) == r.outcome = "ok" => /\ \A i \in 1..Len(r.layout) : BucketOK(r.layout[i])
                                    /\ r.total = Len(r.keys)
-Accept(r) == BuildAllowed(r.vsize, r.keys, r.klens, r.vlens, r.outcome, r.found, r.deterministic) /\ LayoutOK(r)
+Accept(r) == /\ BuildAllowed(r.vsize, r.keys, r.klens, r.vlens, r.outcome, r.found, r.deterministic) /\ LayoutOK(r)
+             \* supported inputs in buckets that are not over-full must build (r.sampled: the per-insert data is a sample,
+             \* so MustFail is decided by the case class: r.mustfail)
+             /\ (r.outcome = "err" => r.mustfail \/ MayFail(r.avgload))
 Init == l = 1
 Next == /\ l <= Len(Trace) /\ l' = l + 1
         /\ IF Accept(Trace[l]) THEN TRUE ELSE PrintT("@@REJECT@@ " \o ToString(l))
